@@ -40,6 +40,10 @@ CLAIMS['C13'] = dict(cat='proof', ref='DESIGN.md 5/C13',
 CLAIMS['C20'] = dict(cat='proof', ref='DESIGN.md 5/C20',
    text='_find_line_with_isotope: the real while-loop is cut mechanically and the invariant "no earlier line matched" proves, for an arbitrary file, that the remainder of the FIRST exactly matching line is returned and None only if no line matches; _parse_line maps field k to columns (2k, 2k+1) with fm/barn for arbitrary field contents; _assemble_scalar: None iff blank, value, variance = uncertainty^2 or none; Atom.for_isotope: Z and weight from the element row, mass looked up iff a specific isotope; loaders skip exactly the two header lines; all 371+118+3557 rows and ~1700 near-miss names are evaluated natively against an independent csv parse (complete enumeration); attenuation = n (sigma_s + sigma_a lambda / 1.7982 A) in inverse length for symbolic unit scales.',
    note='Trusted: abstract text-file model (readline/split/str equality), while-loop cutting, one quantified invariant in z3, float(str), re.match for the isotope-name pattern (exercised on every table name), scipp model for the 1/v law.')
+CLAIMS['C02'] = dict(cat='proof', ref='DESIGN.md 5/C02',
+   text='Complete enumeration of the finite configuration space the property names, on the real functions: energy-mode deduction and its RuntimeErrors (192 cases), graph selection against the documented composition incl. no wrong-mode kernel (100 cases), convert passes exactly the reported graph to transform_coords and translates KeyError to RuntimeError on both branches, and for all 4 origins x 11 targets x scatter x 2^11 coordinate subsets (180224 configurations): the target is derivable in the graph the code selects iff it is derivable from the documented relations (spec tables written independently). Values follow from the kernel contracts of C01/C03/C05 along the derivation.',
+   note='Trusted: assumed contract of scipp transform_coords (derivability fixpoint, precedence of supplied coordinates, KeyError) -- validated boundedly: 1500/40000 random real conversions compared for success/exception class and numeric value against a numpy composition of the formulas.',
+   tech='contract-based: exhaustive evaluation of the real functions over the finite domain named by the property, against spec tables; dependency contract assumed + bounded validation')
 NA = {}
 checks = []
 for p in props:
